@@ -381,22 +381,29 @@ def h_tree(ctx):
     parent_attrs = ([(AT['sibling'], sibform)] if sibform else []) + [(AT['const_value'], 0x0b)]
     ab = abbrev_table([(1, TAG_CU, bool(forest), []), (2, TAG_VAR, False, [(AT['const_value'], 0x0b)]), (3, TAG_NS, True, parent_attrs)])
     pre_units = cfg.get('pre', 0)
+    tu = cfg.get('tu', False)          # the unit under test is a v4 type unit in .debug_types (its own unit class in the library)
     sec = []
     for _ in range(pre_units):
-        h0, _hs = unit_header(4, False, E.little, 8, 0, body_len=1)
+        h0, _hs = unit_header(4, False, E.little, 8, 0, body_len=1, tu=tu, signature=0x1111 if tu else 0, type_offset=0)
         sec += h0 + [0]
     cu_off = len(sec)
-    hdr_probe, hsz = unit_header(E.version, E.fmt64, E.little, E.addr, 0, 'compile', body_len=0)
+    hdr_probe, hsz = unit_header(E.version, E.fmt64, E.little, E.addr, 0, 'compile', body_len=0, tu=tu)
     top_off = cu_off + hsz
     body, flat = _layout_tree(ctx, E, forest, sib, top_off + 1, cu_off, 't')
     full = [1] + body + ([0] if forest else [])
-    h, _ = unit_header(E.version, E.fmt64, E.little, E.addr, 0, 'compile', body_len=len(full))
+    h, _ = unit_header(E.version, E.fmt64, E.little, E.addr, 0, 'compile', body_len=len(full), tu=tu, signature=0x2222 if tu else 0, type_offset=hsz)
     sec += h + full
     # a following unit, so that the end of this one is not the end of the section
-    h2, _ = unit_header(4, False, E.little, 8, 0, body_len=1)
+    h2, _ = unit_header(4, False, E.little, 8, 0, body_len=1, tu=tu, signature=0x3333 if tu else 0)
     sec += h2 + [0]
-    di, _ = mk_dwarfinfo(ctx, E.little, E.addr, debug_info=sec, debug_abbrev=ab)
-    cu = list(di.iter_CUs())[pre_units]
+    def fresh():
+        if tu:
+            hI, _ = unit_header(4, False, E.little, 8, 0, body_len=1)
+            di, _ = mk_dwarfinfo(ctx, E.little, E.addr, debug_info=hI + [0], debug_abbrev=ab, debug_types=sec)
+            return list(di.iter_TUs())[pre_units]
+        di, _ = mk_dwarfinfo(ctx, E.little, E.addr, debug_info=sec, debug_abbrev=ab)
+        return list(di.iter_CUs())[pre_units]
+    cu = fresh()
     mode = cfg.get('mode', 'iter')
     want = [dict(off=top_off, size=1, code=1, children=bool(forest), null=False, depth=0, parent=None, val=None)] + flat
     if forest:
@@ -407,6 +414,17 @@ def h_tree(ctx):
         for w in reversed(want):
             d = cu.get_DIE_from_refaddr(w['off'])
             ctx.check_eq('tree/random-access', [d.offset, d.size, d.abbrev_code, d.is_null()], [w['off'], w['size'], w['code'], w['null']])
+    if mode == 'parent-first':
+        # the parent of an entry fetched by offset on an untouched unit (found by searching down from the top entry), also for the
+        # null entries: a terminator belongs to the entry whose child list it closes
+        for w in want:
+            d = fresh().get_DIE_from_refaddr(w['off'])
+            p = d.get_parent()
+            if w['depth'] == 0:
+                ctx.check('tree/parent-first/top-none', p is None)
+            else:
+                wp = w['parent']['off'] if w['parent'] is not None else top_off
+                ctx.check_eq('tree/%s/parent-first%s' % (sib, '/null' if w['null'] else ''), p.offset if p is not None else None, wp)
     dies = list(cu.iter_DIEs())
     ctx.check_eq('tree/%s/count' % sib, len(dies), len(want))
     if len(dies) != len(want):
@@ -436,9 +454,12 @@ def h_tree(ctx):
         p = d.get_parent()
         if w['depth'] == 0:
             ctx.check('tree/parent/top-none', p is None)
+            ctx.check_eq('tree/siblings/top-none', [x.offset for x in d.iter_siblings()], [])
         else:
             wp = w['parent']['off'] if w['parent'] is not None else top_off
             ctx.check_eq('tree/%s/parent' % sib, p.offset if p is not None else None, wp)
+            ws = [x['off'] for x in want if not x['null'] and x is not w and x['depth'] == w['depth'] and x['parent'] is w['parent']]
+            ctx.check_eq('tree/%s/siblings' % sib, [x.offset for x in d.iter_siblings()], ws)
 
 
 # ------------------------------------------------------------------ H4.6 references
@@ -577,10 +598,23 @@ def _tree_instances(tier):
             for sib in sibs:
                 if sib != 'none' and not any(f for f in forest):
                     continue
-                for mode in ('iter', 'random-first'):
-                    if mode == 'random-first' and _count(forest) not in (3, maxn):
+                for mode in ('iter', 'random-first', 'parent-first'):
+                    if mode != 'iter' and _count(forest) not in (3, maxn):
                         continue
                     out.append(dict(env=e, forest=forest, sib=sib, mode=mode, pre=1 if sib == 'ref_addr' else 0))
+    # the same trees inside DWARF 4 type units (.debug_types), whose navigation code is separate from the compile units'
+    tu_envs = [dict(version=4, fmt64=False, addr=8, little=True), dict(version=4, fmt64=True, addr=4, little=False)]
+    for e, sibs in ((tu_envs[0], ('none', 'ref4', 'ref_addr')), (tu_envs[1], ('ref_udata', 'ref_addr', 'none'))):
+        for forest in forests:
+            if tier == 'quick' and _count(forest) not in (0, 2, 3, maxn):
+                continue
+            for sib in sibs:
+                if sib != 'none' and not any(f for f in forest):
+                    continue
+                for mode in ('iter', 'random-first', 'parent-first'):
+                    if mode != 'iter' and _count(forest) not in (3, maxn):
+                        continue
+                    out.append(dict(env=e, forest=forest, sib=sib, mode=mode, pre=1 if sib != 'ref4' else 0, tu=True))
     return out
 
 
